@@ -735,6 +735,9 @@ theorem rshiftLI_spec {s s' : St} {a : LinComb} {n : Int} {o : Option LinComb} (
     (ha : Good s a) (h : rshiftLI a n s = .ok (o, s')) :
     s.le s' ∧ Frame s s' ∧ Inv s' ∧ ∀ r, o = some r → Good s' r := by
   unfold rshiftLI at h
+  by_cases hn : n < 0
+  · simp only [hn, if_true, reduceCtorEq] at h
+  simp only [hn, if_false] at h
   obtain ⟨bits, s1, h1, h⟩ := bind_ok.mp h
   obtain ⟨rfl, rfl⟩ := pure_ok' h
   obtain ⟨le1, f1, inv1, g1⟩ := toBits_spec hinv ha h1
